@@ -28,7 +28,6 @@ from jax2onnx.plugins._patching import AssignSpec, MonkeyPatchSpec
 from jax2onnx.plugins.jax.numpy._common import get_orig_impl, make_jnp_primitive
 from jax2onnx.plugins.plugin_system import PrimitiveLeafPlugin, register_primitive
 
-
 _ORIGINAL_JNP_CONCATENATE: Final = jnp.concatenate
 
 ArrayTuple = tuple[ArrayLike, ...]
@@ -50,7 +49,8 @@ def _normalize_axis(axis: int, rank: int) -> int:
 def _promote_dtype(dtypes: Sequence[np.dtype[Any]]) -> np.dtype[Any]:
     result = dtypes[0]
     for dt in dtypes[1:]:
-        result = np.promote_types(result, dt)
+        # JAX's promotion lattice (float32 with int32 is float32), not NumPy's
+        result = np.dtype(jnp.promote_types(result, dt))
     return result
 
 
